@@ -83,6 +83,16 @@ def _dev2(rnd, T, T2):
     return {'m': 'rigid', 'op': 'dev2', 'dim': 2, 'T': T, 'T2': T2, 'pts': poly, 'fc': fc, 'qs': qs}
 
 
+def _far(rnd, dim):
+    """queries p + k * n + e / 2: far along the normal (k * |n| up to 1e5), a unit or so off it"""
+    return [[rnd.choice((1000, -30000, 1 << 15)), rnd.randint(-2, 2), rnd.randint(-2, 2), rnd.randint(-2, 2) if dim == 3 else 0] for _k in range(5)]
+
+
+def _cross_nz(e, n):
+    c = [e[1] * n[2] - e[2] * n[1], e[2] * n[0] - e[0] * n[2], e[0] * n[1] - e[1] * n[0]]
+    return any(c)
+
+
 def gen_c03_random(rnd, tier):
     n = 60 if tier == 'quick' else 1500
     out = []
@@ -98,10 +108,14 @@ def gen_c03_random(rnd, tier):
             T = {'M': M, 'H': a[2] * b[2] * c[2], 't': [rnd.randint(-1000, 1000) for _k in range(3)], 'planar': False}
         if kind == 'sp3':
             out.append({'m': 'rigid', 'op': 'sp', 'dim': 3, 'T': T, 'p': [rnd.randint(-5, 5) for _k in range(3)],
-                        'n': rnd.choice([[1, 0, 0], [1, 2, 2], [-3, 0, 4], [2, -1, 2], [0, -1, 0]]), 'qs': qs3})
+                        'n': rnd.choice([[1, 0, 0], [1, 2, 2], [-3, 0, 4], [2, -1, 2], [0, -1, 0]]), 'qs': qs3,
+                        'far': _far(rnd, 3)})
+            out[-1]['far'] = [f for f in out[-1]['far'] if _cross_nz(f[1:], out[-1]['n'])]
         elif kind == 'sp2':
             out.append({'m': 'rigid', 'op': 'sp', 'dim': 2, 'T': T, 'p': [rnd.randint(-5, 5), rnd.randint(-5, 5), 0],
-                        'n': rnd.choice([[1, 0, 0], [3, 4, 0], [-1, 1, 0]]), 'qs': qs2})
+                        'n': rnd.choice([[1, 0, 0], [3, 4, 0], [-1, 1, 0]]), 'qs': qs2,
+                        'far': _far(rnd, 2)})
+            out[-1]['far'] = [f for f in out[-1]['far'] if _cross_nz(f[1:], out[-1]['n'])]
         elif kind == 'curve3':
             T2 = {'M': _mm(_rz(*b), _rx(*c)), 'H': b[2] * c[2], 't': [3, -2, 5], 'planar': False}
             out.append({'m': 'rigid', 'op': 'curve', 'dim': 3, 'T': T, 'T2': T2, 'pts': [[0, 0, 0], [0, 3, 4], [2, 3, 4], [2, 0, 0]],
